@@ -37,6 +37,15 @@ def py_eval_factory(leaf, consts):
                                                   comparators=node.comparators))
                     if pos in names:
                         return ast.copy_location(ast.UnaryOp(op=ast.Not(), operand=ast.Name(id="P_" + names[pos], ctx=ast.Load())), node)
+                # `x is None` / `x is not None` with a boolean parameter registered as "x is None"
+                if (isinstance(node, ast.Compare) and len(node.ops) == 1 and isinstance(node.ops[0], (ast.Is, ast.IsNot))
+                        and isinstance(node.comparators[0], ast.Constant) and node.comparators[0].value is None):
+                    key = ast.unparse(node.left) + " is None"
+                    if key in names:
+                        nm = ast.Name(id="P_" + names[key], ctx=ast.Load())
+                        if isinstance(node.ops[0], ast.IsNot):
+                            nm = ast.UnaryOp(op=ast.Not(), operand=nm)
+                        return ast.copy_location(nm, node)
             return super().generic_visit(node)
 
     tree = ast.fix_missing_locations(Sub().visit(tree))
